@@ -32,7 +32,16 @@ func newLexer(filename string, src io.Reader) *lexer {
 	s := &scanner.Scanner{}
 	s.Init(src)
 	s.Filename = filename
-	return &lexer{s: s}
+
+	l := &lexer{s: s}
+	s.Error = func(s *scanner.Scanner, msg string) {
+		// Record scanner errors (unterminated comments/strings, invalid literals),
+		// by default the scanner only prints them to stderr.
+		if l.err == nil {
+			l.err = fmt.Errorf("%v %v", s.Pos(), msg)
+		}
+	}
+	return l
 }
 
 func setLexerResult(l yyLexer, file *syntax.File) {
@@ -75,7 +84,10 @@ func (l *lexer) Lex(lval *yySymType) int {
 			return lval.yys
 
 		case scanner.Int:
-			v, _ := strconv.ParseInt(text, 10, 64)
+			v, err := strconv.ParseInt(text, 10, 64)
+			if err != nil {
+				return yyLexErrorf(l, "invalid integer %q, expected a decimal number", text)
+			}
 			lval.yys = INTEGER
 			lval.integer = int(v)
 
@@ -84,14 +96,13 @@ func (l *lexer) Lex(lval *yySymType) int {
 			}
 			return lval.yys
 
-		case scanner.Float:
-			lval.yys = int(token)
-			lval.string = text
-
+		case scanner.Float, scanner.Char, scanner.RawString:
+			// These scanner tokens have negative codes, which the generated parser
+			// treats as the end of input, report them instead of dropping them.
 			if debugLexer {
-				fmt.Printf("FLOAT %v %v %v\n", l.s.Position, token, text)
+				fmt.Printf("UNEXPECTED %v %v %v\n", l.s.Position, token, text)
 			}
-			return lval.yys
+			return yyLexErrorf(l, "unexpected %v %v", scanner.TokenString(token), text)
 
 		case scanner.String:
 			lval.yys = STRING
@@ -121,12 +132,17 @@ func (l *lexer) Lex(lval *yySymType) int {
 }
 
 func (l *lexer) Error(s string) {
+	if l.err != nil {
+		return // keep the first error
+	}
 	l.err = fmt.Errorf("%v %v", l.s.Position, s)
 }
 
 func yyLexError(l yyLexer, err error) int {
 	ll := l.(*lexer)
-	ll.err = fmt.Errorf("%v %w", ll.s.Position, err)
+	if ll.err == nil {
+		ll.err = fmt.Errorf("%v %w", ll.s.Position, err)
+	}
 	return ERROR
 }
 
